@@ -543,6 +543,11 @@ pub fn corpus() -> Vec<(String, Target)> {
     let raw: Vec<(&str, Target)> = vec![
         ("a: 1\n", Json),
         ("a: 1", Json),
+        // the last character is a 2-, 3- and 4-byte code point with nothing after it
+        ("key: café", Json),
+        ("- 日本", VecS),
+        ("key: ok 😀", Map),
+        ("---\na: 1\n---\nb: é", Json),
         ("- 1\n- 2\n- 3\n", VecI),
         ("[1, 2, 3]", VecI),
         ("[]", VecI),
